@@ -173,7 +173,7 @@ class OvfProfile(StoreProfile):
     name = "ovf"
     level = "fault_enumeration"
     fmt = "ovf"
-    required_probes = ("cut_in_data", "cut_in_check", "cut_in_header", "cut_in_tail", "multi_chunk_write", "path_reuse", "stale_sidecar_candidate", "foreign_ovf", "sweep_done", "recovery_read", "rejected_write_over_existing_with_subregions", "damaged_foreign_file")
+    required_probes = ("cut_in_data", "cut_in_check", "cut_in_header", "cut_in_tail", "multi_chunk_write", "path_reuse", "stale_sidecar_candidate", "foreign_ovf", "sweep_done", "recovery_read", "rejected_write_over_existing_with_subregions", "damaged_foreign_file", "disk_full_write")
     rule = (
         "one case = one seeded store history (3-30 ops) of OVF writers (bin8/bin4/txt, extend_scalar, side-car on/off) and readers, "
         "foreign OVF 1.0/2.0 writers, an independent OVF 2.0 parser, and faults (torn write at byte c, lost tail, damaged check "
@@ -249,6 +249,8 @@ class OvfProfile(StoreProfile):
             o = {"op": "write", "src": src, "path": rel, "fmt": "ovf", "rep": rep, "opts": opts}
             if "torn" in cfg["faults"] and rng.random() < 0.25:
                 o["fault"] = {"kind": "torn", "where": self.draw_cut(rng)}
+                if rng.random() < 0.35:
+                    o["fault"]["how"] = "enospc"  # the disk fills up at that byte instead of the process dying
             if rep == "bin4" and fsh.array.size and float(abs(fsh.array).max()) > 3.4e38:
                 o["rep"] = "bin8"
             return o
